@@ -157,7 +157,6 @@ func (w *MarkdownWriter) writeParagraph(para *document.Paragraph) error {
 
 // writeHeading 写入标题
 func (w *MarkdownWriter) writeHeading(para *document.Paragraph, style string) error {
-	w.closeList()
 	level := w.getHeadingLevel(style)
 	if level > 6 {
 		level = 6
@@ -167,6 +166,7 @@ func (w *MarkdownWriter) writeHeading(para *document.Paragraph, style string) er
 	if text == "" {
 		return nil
 	}
+	w.closeList()
 
 	if w.opts.UseSetext && level <= 2 {
 		// 使用Setext样式
@@ -186,11 +186,11 @@ func (w *MarkdownWriter) writeHeading(para *document.Paragraph, style string) er
 
 // writeQuote 写入引用
 func (w *MarkdownWriter) writeQuote(para *document.Paragraph) error {
-	w.closeList()
 	text := w.extractParagraphText(para)
 	if strings.TrimSpace(text) == "" {
 		return nil
 	}
+	w.closeList()
 
 	lines := strings.Split(text, "\n")
 	for _, line := range lines {
@@ -224,10 +224,10 @@ func (w *MarkdownWriter) flushCodeBlock() {
 	}
 	text := strings.Join(w.codeLines, "\n")
 	w.codeLines, w.codeGaps = nil, 0
-	w.closeList()
 	if strings.TrimSpace(text) == "" {
 		return
 	}
+	w.closeList()
 
 	// 围栏要比代码中最长的反引号串更长
 	fence := "```"
@@ -266,13 +266,13 @@ func (w *MarkdownWriter) writeListItem(para *document.Paragraph) error {
 
 // writeNormalParagraph 写入普通段落
 func (w *MarkdownWriter) writeNormalParagraph(para *document.Paragraph) error {
-	w.closeList()
 	text := strings.TrimSpace(w.extractParagraphText(para))
 	if text == "" {
-		// 没有可见文本的段落不输出任何内容：块之间本来就以空行分隔，
+		// 没有可见文本的段落不输出任何内容（也不结束列表）：块之间本来就以空行分隔，
 		// 多出的空行在Markdown中没有意义，重新导入后也不会保留
 		return nil
 	}
+	w.closeList()
 
 	// 处理长行换行
 	if w.opts.WrapLongLines && len(text) > w.opts.MaxLineLength {
